@@ -316,7 +316,20 @@ def c06(ctx):
         srep = ctx.report(rp2)
     # 5. corpus-wide stress: concurrent results must equal the sequential ones; fresh charset labels; -race
     rp3 = os.path.join(ctx.scratch, "concstress.json")
-    pr = ctx.vdrive(["concstress", "-corpus", CORPUS, "-rounds", 150 if quick else 2000, "-seed", ctx.seed + 11, "-out", rp3],
+    # cold starts: the first detections of a fresh process are concurrent (several processes)
+    cold = 0
+    for k in range(6 if quick else 60):
+        rpc = os.path.join(ctx.scratch, "cold%d.json" % k)
+        pc_ = ctx.vdrive(["coldstart", "-out", rpc], race=True, env={"GORACE": "log_path=%s exitcode=0" % os.path.join(ctx.scratch, "race-cold%d" % k)}, check=False)
+        cvc = _crash_violation(ctx, pc_, "coldstart")
+        if cvc:
+            violations.append(cvc)
+            continue
+        crc = ctx.report(rpc)
+        cold += crc["evaluations"]
+        violations += [v for v in crc["violations"] if v["property"] == prop]
+    cov["cold_start_detections"] = cold
+    pr = ctx.vdrive(["concstress", "-corpus", CORPUS, "-rounds", 30 if quick else 400, "-per", 300, "-goroutines", 12, "-seed", ctx.seed + 11, "-out", rp3],
                     race=True, env={"GORACE": "log_path=%s exitcode=0" % os.path.join(ctx.scratch, "race-corpus")}, timeout=7000, check=False)
     cv = _crash_violation(ctx, pr, "concstress")
     if cv:
